@@ -148,7 +148,9 @@ def families(tier, seed):
 
 
 def main():
-    chk = Check("C14", "exploration")
+    chk = Check("C14", "other")
+    # deductive core: frame (ownership) contracts of the functions this property rests on (contracts/frames.py)
+    chk.run_frames()
     driver.run_family(
         chk, "read-only-operations-leave-template-unchanged", families(chk.tier, chk.seed), case_fn, site="C14/read-only",
         rule="templates: three nodes sharing one NodeTemplate, two interleaved templates sharing operators, per-node overrides, "
